@@ -248,7 +248,7 @@ class AsyncClient(base_client.BaseClient):
             await self._reset()
             try:
                 arg = await r.json()
-            except aiohttp.ClientError:
+            except (aiohttp.ClientError, ValueError):
                 arg = None
             raise exceptions.ConnectionError(
                 'Unexpected status code {} in server response'.format(
